@@ -143,8 +143,10 @@ fn judge_approx(rep: &mut Report, func: &str, args: &[f32], got: f32, exp: f64) 
     if !ok {
         // mm powf: known finding F8b (micromath's ln/exp based powf) has its
         // own narrow signature: positive base, |exponent| ≤ 3, relative error
-        // below the measured ceiling of 0.6. Anything worse is a violation.
-        let sig = if BACKEND == "mm" && func == "powf" && args[0] > 0.0 && args[1].abs() <= 3.0 && err <= 0.6 * exp.abs() {
+        // below 0.45 (the function's measured maximum over that domain is
+        // 0.4235, reached in every band of |y·ln x|: the error does not
+        // shrink towards x^0 or 1^y). Anything worse is a violation.
+        let sig = if BACKEND == "mm" && func == "powf" && args[0] > 0.0 && args[1].abs() <= 3.0 && err <= 0.45 * exp.abs() {
             "fp.mm.powf_inaccurate".to_string()
         } else {
             format!("fp.{BACKEND}.{func}_out_of_bound")
@@ -213,6 +215,19 @@ fn run(cfg: &Cfg, rep: &mut Report) {
             .collect();
         if bad.is_empty() { Ok(()) } else { Err(bad.join("; ")) }
     });
+    if let Some(f) = b.acos {
+        rep.pin("F24.acos_tiny_argument", {
+            let bad: Vec<String> = [1e-20f32, -1e-20, 5.1353795e-25, 1e-38, -1e-30]
+                .iter()
+                .filter_map(|&x| match catch(|| f(x)) {
+                    Ok(g) if (g as f64 - std::f64::consts::FRAC_PI_2).abs() <= 4e-2 => None,
+                    Ok(g) => Some(format!("[{BACKEND}] acos({x:?}) = {g:?}, std gives 1.5707964")),
+                    Err(m) => Some(format!("[{BACKEND}] acos({x:?}) panicked: {m}")),
+                })
+                .collect();
+            if bad.is_empty() { Ok(()) } else { Err(bad.join("; ")) }
+        });
+    }
     if let Some(f) = b.atan2 {
         rep.pin("F20.atan2_zero_zero", {
             let bad: Vec<String> = [(0.0f32, 0.0f32), (-0.0, 0.0)].iter().filter_map(|&(y, x)| match catch(|| f(y, x)) {
@@ -400,6 +415,71 @@ fn run(cfg: &Cfg, rep: &mut Report) {
                 judge_approx(rep, "powf", &[x, y], f(x, y), (x as f64).powf(y as f64));
             }
         }
+        // The rest of each domain, by magnitude rather than by position in
+        // one period: tiny and large arguments of the periodic functions (the
+        // reference is the function of the f32 argument itself, so only the
+        // backend's own range reduction is on trial; its error is granted
+        // four ulps of the argument on top of the bound), asin/acos within a
+        // few ulps of ±1, exp over its whole finite range, atan2 of components
+        // of any (independent) magnitude.
+        if i % 4 == 1 {
+            let x = rng.sign() * rng.log_f32(1e-30, 1e6);
+            let slack = 4.0 * 1.1920929e-7 * (x as f64).abs();
+            let mut periodic = |rep: &mut Report, name: &str, got: f32, exp: f64| {
+                let (rel, abs) = bound(name);
+                let err = (got as f64 - exp).abs();
+                rep.count("wide_domain.periodic");
+                if !(err <= abs + slack || err <= rel * exp.abs() + slack) {
+                    rep.violation(&format!("fp.{BACKEND}.{name}_out_of_bound"), format!("[{BACKEND}] {name}({x:?}) = {got}; reference {exp}; error {err:.3e} exceeds the bound (rel {rel:.1e} / abs {abs:.1e}) plus 4 ulp of the argument ({slack:.1e})"), Json::obj().set("backend", BACKEND).set("function", name).set("args", Json::Arr(vec![Json::Str(f32s(x))])));
+                }
+            };
+            if let Some(f) = b.sin {
+                periodic(rep, "sin", f(x), (x as f64).sin());
+            }
+            if let Some(f) = b.cos {
+                periodic(rep, "cos", f(x), (x as f64).cos());
+            }
+            if let Some(f) = b.tan {
+                // beyond the first branch too, away from the poles
+                let t = rng.f32_in(-12.0, 12.0);
+                if (t as f64).cos().abs() > 0.1 {
+                    judge_approx(rep, "tan", &[t], f(t), (t as f64).tan());
+                }
+            }
+            let near1 = {
+                let mut v = 1.0f32;
+                for _ in 0..rng.below(65) {
+                    v = f32::from_bits(v.to_bits() - 1);
+                }
+                rng.sign() * v
+            };
+            let tiny = rng.sign() * rng.log_f32(1e-30, 1e-6);
+            for v in [near1, tiny] {
+                if let Some(f) = b.asin {
+                    judge_approx(rep, "asin", &[v], f(v), (v as f64).asin());
+                }
+                if let Some(f) = b.acos {
+                    judge_approx(rep, "acos", &[v], f(v), (v as f64).acos());
+                }
+            }
+            if let Some(f) = b.exp {
+                let e = rng.f32_in(-87.0, 88.0);
+                judge_approx(rep, "exp", &[e], f(e), (e as f64).exp());
+            }
+            if let Some(f) = b.atan2 {
+                let (yy, xx) = (rng.sign() * rng.log_f32(1e-18, 1e18), rng.sign() * rng.log_f32(1e-18, 1e18));
+                let exp = (yy as f64).atan2(xx as f64);
+                let got = f(yy, xx);
+                let alt = if exp > 0.0 { exp - 2.0 * pi } else { exp + 2.0 * pi };
+                let e = if (got as f64 - alt).abs() < (got as f64 - exp).abs() && exp.abs() > 3.1 { alt } else { exp };
+                rep.count("wide_domain.atan2_independent_magnitudes");
+                if got.is_nan() {
+                    rep.violation(&format!("fp.{BACKEND}.atan2_nan_at_edge_point"), format!("[{BACKEND}] atan2({yy:?}, {xx:?}) = NaN; reference {exp}"), Json::obj().set("backend", BACKEND).set("function", "atan2").set("args", Json::Arr(vec![Json::Str(f32s(yy)), Json::Str(f32s(xx))])));
+                } else {
+                    judge_approx(rep, "atan2", &[yy, xx], got, e);
+                }
+            }
+        }
         // zero base: 0^0 = 1, 0^y = 0 for y > 0, 0^y = ∞ for y < 0
         if let (Some(f), true) = (b.powf, i % 64 == 0) {
             let x = if rng.bool() { 0.0f32 } else { -0.0 };
@@ -567,16 +647,21 @@ fn run(cfg: &Cfg, rep: &mut Report) {
     rep.run_stream(cfg, 4, "texture_addressing", cfg.n(400_000, 20_000_000), |rng, _, rep| {
         use re::render::tex::{uv, SamplerRepeatPot, Texture};
         use re::util::buf::Buf2;
-        let (w, h) = (1u32 << rng.below(6), 1u32 << rng.below(6));
+        let (w, h) = if rng.chance(1, 8) { (1u32 << (6 + rng.below(5)), 1u32 << rng.below(3)) } else { (1u32 << rng.below(6), 1u32 << rng.below(6)) };
         let tex = Texture::from(Buf2::new_with((w, h), |x, y| (y << 16) | x));
         let s = SamplerRepeatPot::new(&tex);
-        let mut c = |rng: &mut Rng| match rng.below(4) {
+        let mut c = |rng: &mut Rng| match rng.below(8) {
             0 => rng.int(-70, 70) as f32,
             1 => {
                 let k = rng.int(-70, 70) as f32;
                 rng.ulp_nudge(k)
             }
             2 => rng.int(-70, 70) as f32 + 0.5,
+            // the whole range the repeating sampler is specified on (< 2^31),
+            // zeros, tiny values, and what it must merely survive
+            3 => rng.sign() * rng.log_f32(1e-3, 2147483520.0),
+            4 => rng.pick(&[0.0f32, -0.0, 1e-30, -1e-30, 1e-45, -1e-45, 2147483520.0, -2147483520.0]),
+            5 => rng.pick(&[f32::NAN, f32::INFINITY, f32::NEG_INFINITY, 3e38, -3e38, 4294967296.0, -2147483648.0]),
             _ => rng.f32_in(-300.0, 300.0),
         };
         let (u, v) = (c(rng), c(rng));
@@ -584,17 +669,49 @@ fn run(cfg: &Cfg, rep: &mut Report) {
         hs.u64(w as u64).u64(h as u64).f32(u).f32(v);
         rep.case(hs.get(), true);
         let cj = || Json::obj().set("backend", BACKEND).set("texture", format!("{w}x{h}")).set("u", f32s(u)).set("v", f32s(v));
-        match catch(|| s.sample_abs(&tex, uv(u, v))) {
-            Err(e) => rep.violation(&format!("fp.{BACKEND}.sampler_panicked"), format!("[{BACKEND}] sample_abs panicked: {e}"), cj()),
-            Ok(t) => {
-                let (ex, ey) = (((u as f64).floor() as i64).rem_euclid(w as i64) as u32, ((v as f64).floor() as i64).rem_euclid(h as i64) as u32);
-                if (t & 0xFFFF, t >> 16) != (ex, ey) {
-                    rep.violation(&format!("fp.{BACKEND}.texture_addressing_differs"), format!("[{BACKEND}] repeat sampler at ({u},{v}) on {w}x{h} returned texel ({},{}) instead of ({ex},{ey})", t & 0xFFFF, t >> 16), cj());
-                    return;
+        // per axis: the exact texel for |c| < 2^31, otherwise any column/row
+        let expect = |c: f32, n: u32| -> Option<u32> { (c.is_finite() && (c as f64).abs() < 2147483648.0).then(|| ((c as f64).floor() as i64).rem_euclid(n as i64) as u32) };
+        let judge = |rep: &mut Report, what: &str, r: Result<u32, String>, eu: Option<u32>, ev: Option<u32>| -> bool {
+            match r {
+                Err(e) => {
+                    rep.violation(&format!("fp.{BACKEND}.sampler_panicked"), format!("[{BACKEND}] {what} panicked: {e}"), cj());
+                    false
                 }
-                rep.count("sampler_checks");
+                Ok(t) => {
+                    let (gx, gy) = (t & 0xFFFF, t >> 16);
+                    if gx >= w || gy >= h || eu.is_some_and(|x| x != gx) || ev.is_some_and(|y| y != gy) {
+                        rep.violation(&format!("fp.{BACKEND}.texture_addressing_differs"), format!("[{BACKEND}] {what} at ({u:?},{v:?}) on {w}x{h} returned texel ({gx},{gy}); expected ({eu:?},{ev:?})"), cj());
+                        return false;
+                    }
+                    true
+                }
             }
+        };
+        if !judge(rep, "repeat sample_abs", catch(|| s.sample_abs(&tex, uv(u, v))), expect(u, w), expect(v, h)) {
+            return;
         }
+        // the relative entry point, on coordinates of relative magnitude
+        let (ru, rv) = (u / 64.0, v / 64.0);
+        let (su, sv) = (w as f32 * ru, h as f32 * rv);
+        if !judge(rep, "repeat sample (relative)", catch(|| s.sample(&tex, uv(ru, rv))), expect(su, w), expect(sv, h)) {
+            return;
+        }
+        #[cfg(any(feature = "std", feature = "libm", feature = "mm"))]
+        {
+            use re::render::tex::SamplerClamp;
+            let cl = |c: f32, n: u32| -> Option<u32> { (!c.is_nan()).then(|| (c as f64).max(0.0).min((n - 1) as f64).floor() as u32) };
+            if !judge(rep, "clamp sample_abs", catch(|| SamplerClamp.sample_abs(&tex, uv(u, v))), cl(u, w), cl(v, h)) {
+                return;
+            }
+            if !judge(rep, "clamp sample (relative)", catch(|| SamplerClamp.sample(&tex, uv(ru, rv))), cl(su, w), cl(sv, h)) {
+                return;
+            }
+            rep.count("sampler_checks.clamp");
+        }
+        if !(u.is_finite() && v.is_finite()) {
+            rep.count("sampler_checks.non_finite_coordinate");
+        }
+        rep.count("sampler_checks");
     });
     rep.run_stream(cfg, 5, "normalize", cfg.n(400_000, 20_000_000), |rng, _, rep| {
         use re::math::vec::{vec3, Vec3};
